@@ -1,5 +1,6 @@
 //! vh — conformance harness: replays TLC-generated behaviours into the real varlink code and
 //! records traces of the real code for validation against the TLA+ specifications.
+mod cli;
 mod client;
 mod conn;
 mod connmc;
@@ -27,6 +28,7 @@ fn main() {
         "cuts" => cuts::run(rest),
         "poolobs" => poolobs::run(rest),
         "client" => client::run(rest),
+        "cli" => cli::run(rest),
         "clientreal" => client::run_real(rest),
         "clienttrace" => client::run_trace(rest),
         "listen" => listen::run(rest),
